@@ -80,6 +80,9 @@ def install_db(ex: Explorer) -> None:
 
 
 def hex_of(I: Interp, b: VBytes) -> Any:
+    c = b.concrete()
+    if c is not None:
+        return z3.StringVal(c.hex())
     return strings.hex_term(I, b.t)
 
 
@@ -141,7 +144,7 @@ def insert_harness(kind: str, cname: str, cls: type, alts: dict[str, str], dict_
             return
         cols = tup.items[1].items
         rq = cols[2]
-        want_rq = hex_of(I, I.getattr_v(req, "pdu"))
+        want_rq = hex_of(I, pdu if kind == "request" else req.fields["_pdu"])
         I.prove("I-request-column-is-the-complete-hex-pdu",
                 models.str_term(rq) == want_rq if isinstance(rq, VStr) and
                 (rq.t is not None or rq.s is not None) else z3.BoolVal(False))
